@@ -112,7 +112,10 @@ def conditions(tier, seed, active):
             for kind in ("int", "str", "float"):
                 c("metadeps/%s/d%d" % (kind, d), "dep_pair", dict(d=d, kind=kind), ["rejected"])
         for k in cand.keywords(d):
-            for kind in cand.kinds_for(k):
+            root_kinds = cand.kinds_for(k)
+            if quick:
+                root_kinds = rng.sample(root_kinds, 5)
+            for kind in root_kinds:
                 c("kw/%s/%s/d%d" % (k, kind, d), "keyword", dict(d=d, k=k, kind=kind), [], timeout=900)
             positions = [p for p in cand.POSITIONS if p != "root"]
             if quick:
@@ -120,7 +123,7 @@ def conditions(tier, seed, active):
             for pos in positions:
                 kinds = cand.kinds_for(k)
                 if quick:
-                    kinds = rng.sample(kinds, 2)
+                    kinds = rng.sample(kinds, 1)
                 for kind in kinds:
                     c("kw@%s/%s/%s/d%d" % (pos, k, kind, d), "keyword", dict(d=d, k=k, kind=kind, position=pos), [], timeout=900)
     return out
